@@ -456,7 +456,9 @@ fn build(rng: &mut Rng, case: usize, with_malformed: bool) -> Built {
     let mut seed = [0u8; 32];
     seed[0] = (case % 251) as u8;
     seed[1] = 0xc8;
-    let world = World::new(real_policy(&pol), seed, KeyDerivationStyle::Native);
+    let mut world = World::new(real_policy(&pol), seed, KeyDerivationStyle::Native);
+    // half of the nodes run under OnchainValidatorFactory over the same simple policy
+    world.onchain = rng.chance(1, 2);
     let node = world.new_node();
     let node_ctx = TestNodeContext { node: node.clone(), secp_ctx: Secp256k1::signing_only() };
     let secp = Secp256k1::new();
@@ -1277,8 +1279,16 @@ fn node_step(b: &Built, node: &Arc<Node>, values: &[u64], now: u64, answer: bool
             let msat = (sin - sc) * 1000;
             // the control must have counted it
             let tot = |c: &VelocityControl| c.buckets.iter().map(|x| *x as u128).sum::<u128>();
-            if after.limit != U64MAX && tot(after) > after.limit as u128 {
-                monitor.push(format!("{}: fee velocity control holds {} above its limit {}", which, tot(after), after.limit));
+            let configured = if b.pol.vel_kind == 2 { U64MAX } else { b.pol.vel_limit };
+            if configured != U64MAX && tot(after) > configured as u128 {
+                monitor.push(format!("{}: fee velocity control holds {} above the configured limit {}", which, tot(after), configured));
+            }
+            let (ivl, nb) = vel_shape(&b.pol);
+            if after.limit != configured || after.bucket_interval as u64 != ivl || after.buckets.len() as u64 != nb {
+                monitor.push(format!(
+                    "{}: the fee velocity control runs with limit {} / {} buckets of {} s, configured is limit {} / {} buckets of {} s",
+                    which, after.limit, after.buckets.len(), after.bucket_interval, configured, nb, ivl
+                ));
             }
             if msat > 0 && after.buckets.first().map(|x| (*x as u128) < msat.min(U64MAX as u128)).unwrap_or(true) {
                 monitor.push(format!("{}: accepted {} msat but the current bucket holds {:?}", which, msat, after.buckets.first()));
@@ -1883,7 +1893,8 @@ fn handler_domain(args: &Args) {
         let mut seed = [0u8; 32];
         seed[0] = (case % 251) as u8;
         seed[1] = 0xc9;
-        let world = World::new(real_policy(&pol), seed, KeyDerivationStyle::Native);
+        let mut world = World::new(real_policy(&pol), seed, KeyDerivationStyle::Native);
+        world.onchain = rng.chance(1, 2);
         let node = world.new_node();
         let node_ctx = TestNodeContext { node: node.clone(), secp_ctx: Secp256k1::signing_only() };
         let mut refw = RefWallet { secp: secp.clone(), account: node.get_account_extended_key().clone(), allow_scripts: vec![], xpubs: vec![] };
@@ -2608,6 +2619,183 @@ fn memo_domain(args: &Args) {
     emit("STATS", json!({"kind": "memo", "profile": profile_name(), "requests": stats, "monitor_failures": monitor_failures}));
 }
 
+// ------------------------------------------------------------------ fee runs
+
+/// Sequences of plain spends (a wallet input, change, now and then an allowlisted output) on one node with a small,
+/// non-default fee velocity limit, under the simple or the on-chain validator factory: check_onchain_tx, and
+/// unchecked_sign_onchain_tx iff it passed.  The fees are cut so that their sum reaches the limit exactly, then
+/// passes it; restarts and pauses of a bucket / a window in between.  The model runs the same history from the
+/// CONFIGURED spec (nothing is read from the node), and the window monitor uses the harness's own record.
+fn feerun_domain(args: &Args) {
+    let mut rng = Rng::new(mix_seed(args.seed ^ 0xc08d));
+    let secp = Secp256k1::new();
+    let (mut accepted, mut refused, mut restarts, mut monitor_failures, mut at_limit, mut onchain_cases) = (0u64, 0u64, 0u64, 0u64, 0u64, 0u64);
+    for case in 0..args.n {
+        let (vel_kind, vel_limit, it_name) = *rng.pick(&[
+            (0u8, 1_000_000u64, "Hourly"),
+            (0, 10_000_000, "Hourly"),
+            (0, 77_000_000, "Hourly"),
+            (1, 5_000_000, "Daily"),
+            (1, 50_000_000, "Daily"),
+            (1, 123_456_000, "Daily"),
+            (1, 1_000_000_000, "Daily"),
+            (0, 1_000_000_000, "Hourly"),
+            (2, 0, "Unlimited"),
+        ]);
+        let pol = Pol { max_feerate: *rng.pick(&[4_000_000_000u32, 4_000_000_000, 333_333]), disable_beneficial: false, rules: vec![], vel_kind, vel_limit };
+        let mut seed = [0u8; 32];
+        seed[0] = (case % 251) as u8;
+        seed[1] = 0xcb;
+        let mut world = World::new(real_policy(&pol), seed, KeyDerivationStyle::Native);
+        world.onchain = rng.chance(2, 3);
+        onchain_cases += world.onchain as u64;
+        let mut node = world.new_node();
+        let mut refw = RefWallet { secp: secp.clone(), account: node.get_account_extended_key().clone(), allow_scripts: vec![], xpubs: vec![] };
+        let allow = refw.script_of(&refw.wallet_key(&path_of(&[10_500])), 0);
+        refw.allow_scripts.push(allow.clone());
+        node.add_allowlist(&[allow_entry_script(&allow)]).expect("add_allowlist");
+        let (ivl, nb) = vel_shape(&pol);
+        let lim_sat = if vel_kind == 2 { 50_000 } else { vel_limit / 1000 };
+        // the fees of the run: pieces of the limit, so that the running sum lands on it, then one more
+        let pattern = rng.below(5);
+        let mut fees: Vec<u64> = match pattern {
+            0 => vec![lim_sat / 4, lim_sat / 4, lim_sat / 4, lim_sat - 3 * (lim_sat / 4), 1, 1],
+            1 => vec![lim_sat / 2 + 1, lim_sat / 2 + 1, lim_sat / 2 - 1, 1],
+            2 => vec![lim_sat, 1, lim_sat],
+            3 => vec![lim_sat + 1, lim_sat - 1, 1, 1],
+            _ => (0..3 + rng.below(5)).map(|_| 1 + rng.below(lim_sat / 2 + 1)).collect(),
+        };
+        if rng.chance(1, 3) {
+            fees.push(1 + rng.below(lim_sat));
+        }
+        let mut now = 1000 + rng.below(1_000_000);
+        let mut ops: Vec<String> = vec![];
+        let mut obs: Vec<String> = vec![];
+        let mut jops: Vec<Value> = vec![];
+        let mut log: Vec<(u64, u128)> = vec![];
+        let mut monitor: Vec<String> = vec![];
+        let mut dead = false;
+        for (k, fee) in fees.iter().enumerate() {
+            if dead {
+                break;
+            }
+            if k > 0 {
+                now += match rng.below(10) {
+                    0..=4 => rng.below(ivl / 4 + 1),
+                    5 => ivl - 1,
+                    6 => ivl,
+                    7 => ivl * (nb - 1) - 1,
+                    8 => ivl * (nb - 1),
+                    _ => ivl * nb + 1,
+                };
+                if rng.chance(1, 5) {
+                    node = world.restart(&node.get_id());
+                    restarts += 1;
+                    ops.push("ORestart".into());
+                    obs.push(format!("(0, {})", vc_obs(&fee_control(&node))));
+                    jops.push(json!("restart from the store"));
+                }
+            }
+            world.clock.set(Duration::from_secs(now));
+            let key = rng.below(40) as u32;
+            let in_script = refw.script_of(&refw.wallet_key(&path_of(&[key])), 0);
+            let ckey = rng.below(40) as u32;
+            let change = 10_000 + rng.below(5_000_000);
+            let mut outputs = vec![TxOut { value: Amount::from_sat(change), script_pubkey: refw.script_of(&refw.wallet_key(&path_of(&[ckey])), 0) }];
+            let mut opaths = vec![path_of(&[ckey])];
+            let mut outs_coq = vec![format!("mkOut {} WalletPath (Some true) (Some false) false None", change)];
+            let mut pay = 0u64;
+            if rng.chance(1, 3) {
+                pay = 1000 + rng.below(1_000_000);
+                outputs.push(TxOut { value: Amount::from_sat(pay), script_pubkey: allow.clone() });
+                opaths.push(path_of(&[]));
+                outs_coq.push(format!("mkOut {} EmptyPath (Some false) (Some true) true None", pay));
+            }
+            let mut h = rng.bytes32();
+            h[0] = k as u8;
+            let tx = Transaction {
+                version: Version::TWO,
+                lock_time: LockTime::ZERO,
+                input: vec![TxIn { previous_output: OutPoint { txid: Txid::from_slice(&h).unwrap(), vout: 0 }, script_sig: ScriptBuf::new(), sequence: Sequence::ZERO, witness: Witness::default() }],
+                output: outputs,
+            };
+            let value = change + pay + fee;
+            let prev_outs = vec![TxOut { value: Amount::from_sat(value), script_pubkey: in_script }];
+            let ucks: Vec<Uck> = vec![None];
+            let r = catch_unwind(AssertUnwindSafe(|| node.check_onchain_tx(&tx, &[true], &prev_outs, &ucks, &opaths)));
+            let code = match &r {
+                Err(_) => 1u64,
+                Ok(Ok(())) => 0,
+                Ok(Err(ve)) => err_obs(ve).0,
+            };
+            if code == 1 {
+                dead = true;
+            }
+            let mut signed = false;
+            if code == 0 {
+                let sr = catch_unwind(AssertUnwindSafe(|| node.unchecked_sign_onchain_tx(&tx, &[path_of(&[key])], &prev_outs, ucks.clone())));
+                signed = matches!(sr, Ok(Ok(_)));
+                if !signed {
+                    monitor.push("unchecked_sign_onchain_tx refused a plain wallet spend that passed the check".into());
+                    dead = true;
+                }
+            }
+            if signed {
+                accepted += 1;
+                log.push((now, *fee as u128 * 1000));
+                let total: u128 = log.iter().map(|(_, a)| *a).sum();
+                if vel_kind != 2 && total == vel_limit as u128 {
+                    at_limit += 1;
+                }
+            } else {
+                refused += 1;
+            }
+            let after = if dead { None } else { Some(fee_control(&node)) };
+            // the control must be the configured one (the harness's record of the configuration)
+            if let Some(a) = &after {
+                let configured = if vel_kind == 2 { U64MAX } else { vel_limit };
+                if a.limit != configured || a.bucket_interval as u64 != ivl || a.buckets.len() as u64 != nb {
+                    monitor.push(format!(
+                        "after request {} the fee velocity control runs with limit {} / {} buckets of {} s, configured is limit {} / {} buckets of {} s",
+                        k, a.limit, a.buckets.len(), a.bucket_interval, configured, nb, ivl
+                    ));
+                }
+            }
+            ops.push(format!(
+                "OTx {} (mkNode true {} {} 1 [true] [mkIn {} true] [None] {})",
+                now,
+                tx.base_size(),
+                tx.weight().to_wu(),
+                value,
+                coq_list(&outs_coq)
+            ));
+            obs.push(format!("({}, {})", code, after.as_ref().map(vc_obs).unwrap_or_else(|| "(0, 0, [], 0)".into())));
+            jops.push(json!({"request": k, "now": now, "fee_sat": fee, "input_value_sat": value, "change_sat": change, "to_allowlisted_sat": pay,
+                             "check_code": code, "signed": signed, "fee_control_after": after.as_ref().map(vc_json)}));
+        }
+        if vel_kind != 2 {
+            if let Some((t0, len, sum)) = window_violation(&log, vel_limit, ivl, nb) {
+                monitor.push(format!(
+                    "the fees of the spends signed in the window [{}, {}+{}) sum to {} msat, above the configured fee velocity limit {}",
+                    t0, t0, len, sum, vel_limit
+                ));
+            }
+        }
+        if !monitor.is_empty() {
+            monitor_failures += 1;
+        }
+        let coq = format!("(([], {}, {}, {}), {}, {})", coq_pol(&pol), it_name, vel_limit, coq_list(&ops), coq_list(&obs));
+        emit(
+            "CASE",
+            json!({"id": case, "kind": "feerun", "validator_factory": if world.onchain { "OnchainValidatorFactory over SimpleValidatorFactory" } else { "SimpleValidatorFactory" },
+                   "policy": pol_json(&pol), "operations": jops, "signed_fees(time,msat)": log.iter().map(|(t, a)| json!([t, a.to_string()])).collect::<Vec<_>>(),
+                   "monitor_violation": monitor, "coq": if dead { Value::Null } else { json!(coq) }}),
+        );
+    }
+    emit("STATS", json!({"kind": "feerun", "profile": profile_name(), "signed": accepted, "refused": refused, "restarts": restarts,
+        "cases_under_the_onchain_validator_factory": onchain_cases, "runs_whose_signed_fees_sum_to_the_limit_exactly": at_limit, "monitor_failures": monitor_failures}));
+}
+
 fn main() {
     // expected panics of the code under test are caught; keep them to one line on stderr
     std::panic::set_hook(Box::new(|info| {
@@ -2623,6 +2811,7 @@ fn main() {
         "witness" => witness_domain(&args),
         "handler" => handler_domain(&args),
         "memo" => memo_domain(&args),
+        "feerun" => feerun_domain(&args),
         other => {
             eprintln!("unknown sub-domain {}", other);
             std::process::exit(2);
